@@ -123,7 +123,10 @@ def run_case(case):
         with warnings.catch_warnings(record=True) as w:
             warnings.simplefilter("always")
             try:
-                budget = len(case["keys"]) + 3
+                # termination guard, generous enough for any procedure that spends a bounded number of
+                # solver calls per (key, value) pair; cspuz itself needs at most |keys|+2
+                budget = 16 + 2 * sum(2 if case["decls"][k][0] == "b" else case["decls"][k][2] - case["decls"][k][1] + 1
+                                      for k in case["keys"])
                 if backend == "z3":
                     with counted_z3(budget):
                         res = solver.solve(backend="z3")
@@ -139,14 +142,11 @@ def run_case(case):
                     with fakesolver.installed():
                         res = solver.solve(backend=backend)
             except LoopBudget:
-                raise Failure("refinement-loop-exceeds-%s-solves" % "keys+3", observed="more than |keys|+3 solver calls",
-                              expected="each satisfiable re-solve demotes at least one key")
+                raise Failure("solve-does-not-terminate", observed="more than %d solver calls" % budget,
+                              expected="at most a bounded number of solver calls per (key, value) pair")
             except Exception as e:
                 raise Failure("exception|" + repo_frame_sig(e),
                               observed="%s: %s" % (type(e).__name__, str(e)[:200]))
-        if not case["keys"]:
-            if not any("no answer key" in str(x.message) for x in w):
-                raise Failure("no-answer-key-warning-missing")
     finally:
         cspuz.config.backend_path = saved_path
         del fakesolver.CALLS[:]
